@@ -7,13 +7,14 @@ import ChessVerif.Proofs.SearchScoreQ
 namespace ChessVerif
 namespace Search
 
-variable {σ π : Type}
+variable {σ π : Type} [PsInv σ]
 
 /-- what an alphaBeta-like function guarantees about scores. -/
 def ABRange (Good : Board → Prop) (TTok : σ → Prop) (child : Child σ) : Prop :=
   ∀ a b d ply nt s, Good s.board → 0 ≤ ply → ply ≤ 63 → WinOK a b → TTok s.ps →
     TTok (child a b d ply nt s).2.ps ∧ ((child a b d ply nt s).2.aborted = false → InR (child a b d ply nt s).1)
 
+omit [PsInv σ] in
 theorem callChild_range {Good : Board → Prop} {TTok : σ → Prop} (child : Child σ) (hr : ABRange Good TTok child)
     (a b : Score) (d : Int) {ply : Int} (h0 : 0 ≤ ply) (h1 : ply < 63) (nt : NodeType) (s : St σ) (hg : Good s.board)
     (hw : WinOK a b) (htt : TTok s.ps) :
@@ -23,6 +24,7 @@ theorem callChild_range {Good : Board → Prop} {TTok : σ → Prop} (child : Ch
   exact ⟨this.1, fun h => neg_inR (this.2 h)⟩
 
 theorem searchRest_range (c : Comp σ π) (L : Limits) {Good : Board → Prop} {TTok : σ → Prop} (child : Child σ)
+    (htk : ∀ ps, TTok ps → PsInv.ok ps)
     (hc : ABSpec c L Good child) (hr : ABRange Good TTok child) (x : ABCtx) (l : ABLoop π) (next : NodeType) (s : St σ)
     (hg : Good s.board) (h0 : 0 ≤ x.ply) (h1 : x.ply < 63) (htt : TTok s.ps)
     (ha1 : -10001 ≤ l.alpha) (ha2 : l.alpha ≤ 10000) (hb1 : -10000 ≤ x.beta) (hb2 : x.beta ≤ 32767) :
@@ -30,6 +32,7 @@ theorem searchRest_range (c : Comp σ π) (L : Limits) {Good : Board → Prop} {
     TTok o.2.ps ∧ (o.2.aborted = false → InR o.1) := by
   simp only [searchRest]
   have c2 := callChild_post c L child hc (wrapS16 (neg l.alpha - 1)) (neg l.alpha) (wrapS8 (x.d - 1)) h0 h1 next s hg
+    (htk _ htt)
   have r2 := callChild_range child hr (wrapS16 (neg l.alpha - 1)) (neg l.alpha) (wrapS8 (x.d - 1)) h0 h1 next s hg
     (winOK_null ha1 ha2) htt
   simp only at c2 r2
@@ -60,7 +63,7 @@ theorem searchMove_range (c : Comp σ π) (L : Limits) {Good : Board → Prop} {
       simp only [Score] at *; omega
     split
     · have c1 := callChild_post c L child hc (wrapS16 (neg l.alpha - 1)) (neg l.alpha)
-        (c.lmr x.d (l.moveCnt - 1) x.improving x.nt) h0 h1 next s hg
+        (c.lmr x.d (l.moveCnt - 1) x.improving x.nt) h0 h1 next s hg (sl.tt_ok _ htt)
       have r1 := callChild_range child hr (wrapS16 (neg l.alpha - 1)) (neg l.alpha)
         (c.lmr x.d (l.moveCnt - 1) x.improving x.nt) h0 h1 next s hg (winOK_null ha1 ha2) htt
       simp only at c1 r1
@@ -69,10 +72,10 @@ theorem searchMove_range (c : Comp σ π) (L : Limits) {Good : Board → Prop} {
       have hg1 : Good o1.2.board := by rw [c1.1.board]; exact hg
       split
       · exact r1
-      · exact searchRest_range c L child hc hr x l next o1.2 hg1 h0 h1 r1.1 ha1 ha2 hb1 hb2
+      · exact searchRest_range c L child sl.tt_ok hc hr x l next o1.2 hg1 h0 h1 r1.1 ha1 ha2 hb1 hb2
     · split
       · exact ⟨htt, fun _ => inR_zero⟩
-      · exact searchRest_range c L child hc hr x l next s hg h0 h1 htt ha1 ha2 hb1 hb2
+      · exact searchRest_range c L child sl.tt_ok hc hr x l next s hg h0 h1 htt ha1 ha2 hb1 hb2
   · exact callChild_range child hr (neg x.beta) (neg l.alpha) (wrapS8 (x.d - 1)) h0 h1 next s hg
       (winOK_full ha0 ha2 hb1 hb2) htt
 
@@ -109,7 +112,7 @@ theorem abAfter_range (c : Comp σ π) (L : Limits) {Good : Board → Prop} {TTo
       (∀ l', (o.1 = .cont l' ∨ o.1 = .brk l') → ABInv alpha0 l') := by
   simp only [abAfter]
   have hps := abort_ps L (s.setBoard (s.board.undoMove m r)).pop
-  have hfa := @abort_false σ L (s.setBoard (s.board.undoMove m r)).pop
+  have hfa := @abort_false σ _ L (s.setBoard (s.board.undoMove m r)).pop
   have hat := abort_true_iff L (s.setBoard (s.board.undoMove m r)).pop
   generalize abort L (s.setBoard (s.board.undoMove m r)).pop = as at hps hfa hat ⊢
   have htt' : TTok as.2.ps := by rw [hps]; exact htt
@@ -147,29 +150,29 @@ theorem abLoop_range (c : Comp σ π) (L : Limits) {Good : Board → Prop} {TTok
     (hl : Laws c Good) (sl : ScoreLaws c Good TTok μ) (child : Child σ)
     (hc : ABSpec c L Good child) (hr : ABRange Good TTok child) (x : ABCtx) (h0 : 0 ≤ x.ply) (h1 : x.ply < 63)
     (hb1 : -10000 ≤ x.beta) (hb2 : x.beta ≤ 32767) (hmv : Move) (alpha0 : Int) :
-    ∀ (n : Nat) (l : ABLoop π) (s : St σ), Good s.board → Reach c s.board hmv l.pick l.yielded →
-      TTok s.ps → ABInv alpha0 l →
+    ∀ (n : Nat) (l : ABLoop π) (s : St σ), Good s.board → s.board.fifty < 100 → HashOK c s.board hmv →
+      Reach c s.board hmv l.pick l.yielded → TTok s.ps → ABInv alpha0 l →
       let o := abLoop c L child x n l s
       TTok o.2.ps ∧ (∀ v, o.1 = .ret v → o.2.aborted = false → InR v) ∧ (∀ l', o.1 = .done l' → ABInv alpha0 l') := by
   intro n
   induction n with
-  | zero => intro l s _ _ htt _; exact ⟨htt, (fun v _ h => by cases h), fun l' h => by cases h⟩
+  | zero => intro l s _ _ _ _ htt _; exact ⟨htt, (fun v _ h => by cases h), fun l' h => by cases h⟩
   | succ n ih =>
-    intro l s hg hreach htt hinv
+    intro l s hg hfl hhash hreach htt hinv
     simp only [abLoop]
     split
     · exact ⟨htt, (fun v h => by cases h), fun l' h => by cases h; exact hinv⟩
     · next m pk hpick =>
-      have hmem : m ∈ MoveGen.gen s.board := hl.pick_mem _ _ _ _ _ _ _ _ hg hreach hpick
-      have hreach' : Reach c s.board hmv pk (m :: l.yielded) := Reach.next hreach hpick
+      have hmem : m ∈ MoveGen.gen s.board := hl.pick_mem _ _ _ _ _ _ _ _ hg hhash hreach (sl.tt_ok _ htt) hpick
+      have hreach' : Reach c s.board hmv pk (m :: l.yielded) := Reach.next hreach (sl.tt_ok _ htt) hpick
       have hu := hl.undo_make s.board m hg hmem
       have hinv0 : ABInv alpha0 { l with pick := pk, yielded := m :: l.yielded } :=
         ⟨hinv.a1, hinv.a2, hinv.m1, hinv.m0, hinv.qc, hinv.mc, hinv.lo, hinv.fl⟩
       split
-      · rw [hu, setBoard_self]; exact ih _ s hg hreach' htt hinv0
+      · rw [hu, setBoard_self]; exact ih _ s hg hfl hhash hreach' htt hinv0
       · next hchk =>
         have hchk' : (s.board.makeMove c.keys m).1.inCheck s.board.stm = false := by simpa using hchk
-        have hg' := hl.good_make s.board m hg hmem hchk'
+        have hg' := hl.good_make s.board m hg hfl hmem hchk'
         generalize hl2 : abEnter { l with pick := pk, yielded := m :: l.yielded } (s.board.pieceAt (s.board.captureSq m)) m = l2
         have e_alpha : l2.alpha = l.alpha := by rw [← hl2]; rfl
         have e_maxim : l2.maxim = l.maxim := by rw [← hl2]; rfl
@@ -195,7 +198,7 @@ theorem abLoop_range (c : Comp σ π) (L : Limits) {Good : Board → Prop} {TTok
           · exact Or.inr ((hinv.fl h).2 hh)
         have hsm := searchMove_spec c L child hc x l2 (nextNodeType x.nt l2.moveCnt)
           ((s.setBoard (s.board.makeMove c.keys m).1).push
-            { piece := s.board.pieceAt (Move.src m), to := Move.dst m, score := x.staticEval }) hg' h0 h1
+            { piece := s.board.pieceAt (Move.src m), to := Move.dst m, score := x.staticEval }) hg' (sl.tt_ok _ htt) h0 h1
         have hsr := searchMove_range c L sl child hc hr x l2 (nextNodeType x.nt l2.moveCnt)
           ((s.setBoard (s.board.makeMove c.keys m).1).push
             { piece := s.board.pieceAt (Move.src m), to := Move.dst m, score := x.staticEval }) hg' h0 h1 htt
@@ -204,7 +207,10 @@ theorem abLoop_range (c : Comp σ π) (L : Limits) {Good : Board → Prop} {TTok
         generalize searchMove c child x l2 (nextNodeType x.nt l2.moveCnt)
           ((s.setBoard (s.board.makeMove c.keys m).1).push
             { piece := s.board.pieceAt (Move.src m), to := Move.dst m, score := x.staticEval }) = r at hsm hsr ⊢
-        have ha := abAfter_spec c L x m (s.board.makeMove c.keys m).2 l2 r.1 r.2
+        have hub : r.2.board.undoMove m (s.board.makeMove c.keys m).2 = s.board := by
+          rw [hsm.1.board]; simpa using hu
+        have ha := abAfter_spec c L hl x m (s.board.makeMove c.keys m).2 l2 r.1 r.2
+          (by rw [hub]; exact hg) (by rw [hub]; exact hmem)
         have har := abAfter_range c L sl x m (s.board.makeMove c.keys m).2 l2 r.1 r.2 alpha0 hsr.1 hsr.2
           (by rw [e_alpha]; exact hinv.a1) (by rw [e_alpha]; exact hinv.a2) hmx
           (by rw [e_mc]; have := hinv.qc; omega) (by rw [e_mc]; have := hinv.mc; omega) e_leg hfl2
@@ -230,7 +236,8 @@ theorem abLoop_range (c : Comp σ π) (L : Limits) {Good : Board → Prop} {TTok
             obtain ⟨hy, w, hw⟩ := hpick' l' (Or.inl rfl)
             rw [hboard, hy, hw, ← hl2]
             exact Reach.weight hreach'
-          exact ih l' s' (by rw [hboard]; exact hg) hr2 htt' (hcb l' (Or.inl rfl))
+          exact ih l' s' (by rw [hboard]; exact hg) (by rw [hboard]; exact hfl) (by rw [hboard]; exact hhash) hr2 htt'
+            (hcb l' (Or.inl rfl))
 
 theorem nullMove_range (c : Comp σ π) {Good : Board → Prop} {TTok : σ → Prop} (hl : Laws c Good) (child : Child σ)
     (hr : ABRange Good TTok child) (beta : Score) (d : Int) {ply : Int} (h0 : 0 ≤ ply) (h1 : ply < 63) (se : Score)
@@ -258,7 +265,8 @@ theorem abMoves_range (c : Comp σ π) (L : Limits) {Good : Board → Prop} {TTo
     (hl : Laws c Good) (sl : ScoreLaws c Good TTok μ) (child : Child σ)
     (hc : ABSpec c L Good child) (hr : ABRange Good TTok child) (alpha beta : Score) (hw : WinOK alpha beta) (d : Int)
     {ply : Int} (h0 : 0 ≤ ply) (h1 : ply < 63)
-    (nt : NodeType) (inCheck improving : Bool) (se : Score) (hm : Move) (s : St σ) (hg : Good s.board) (htt : TTok s.ps) :
+    (nt : NodeType) (inCheck improving : Bool) (se : Score) (hm : Move) (s : St σ) (hg : Good s.board)
+    (hfl : s.board.fifty < 100) (hhash : HashOK c s.board hm) (htt : TTok s.ps) :
     let o := abMoves c L child alpha beta d ply nt inCheck improving se hm s
     TTok o.2.ps ∧ (o.2.aborted = false → InR o.1) := by
   simp only [abMoves]
@@ -270,7 +278,7 @@ theorem abMoves_range (c : Comp σ π) (L : Limits) {Good : Board → Prop} {TTo
     (by rw [hxb]; exact hw3) (by rw [hxb]; exact hw4) hm alpha
     ((MoveGen.gen s.board).length + 1)
     { alpha := alpha, bestMove := 0, hasLegal := false, failLow := true, maxim := -Inf - 1, moveCnt := 0, quietCnt := 0,
-      pick := c.pickInit s.board hm, yielded := [] } s.pushFrame hg Reach.init htt
+      pick := c.pickInit s.board hm, yielded := [] } s.pushFrame hg hfl hhash Reach.init htt
     ⟨hw1, hw2, (fun h => by cases h), (fun _ => rfl), Int.le_refl _, Int.le_refl _, (fun h => by simp at h),
      fun _ => ⟨rfl, fun h => by cases h⟩⟩
   simp only at h
@@ -303,7 +311,8 @@ theorem abPrune_range (c : Comp σ π) (L : Limits) {Good : Board → Prop} {TTo
     (hc : ABSpec c L Good child) (hr : ABRange Good TTok child) (alpha beta : Score) (hw : WinOK alpha beta) (d : Int)
     {ply : Int} (h0 : 0 ≤ ply) (h1 : ply < 63)
     (nt : NodeType) (inCheck improving : Bool) (se : Score) (hse : inCheck = false → InR se) (hm : Move) (s : St σ)
-    (hg : Good s.board) (hic : inCheck = s.board.inCheck s.board.stm) (htt : TTok s.ps) :
+    (hg : Good s.board) (hfl : s.board.fifty < 100) (hhash : HashOK c s.board hm)
+    (hic : inCheck = s.board.inCheck s.board.stm) (htt : TTok s.ps) :
     let o := abPrune c L child alpha beta d ply nt inCheck improving se hm s
     TTok o.2.ps ∧ (o.2.aborted = false → InR o.1) := by
   simp only [abPrune]
@@ -319,20 +328,21 @@ theorem abPrune_range (c : Comp σ π) (L : Limits) {Good : Board → Prop} {TTo
         simp only [Bool.and_eq_true] at hnm; exact hnm.2
       have hbse : (beta : Int) ≤ se := sl.nmp_sound _ _ _ _ hnmp
       have hb2 : beta ≤ 10000 := Int.le_trans hbse (hse hic').2
-      have hn := nullMove_spec c L hl child hc beta d h0 h1 se s hg hchk
+      have hn := nullMove_spec c L hl child hc beta d h0 h1 se s hg (sl.tt_ok _ htt) hchk
       have hnr := nullMove_range c hl child hr beta d h0 h1 se s hg hchk htt hw.2.2.1 hb2
       simp only at hn hnr
       generalize nullMove c child beta d ply se s = nm at hn hnr ⊢
       split
       · next v hv => exact ⟨hnr.1, fun hna => hnr.2 v hv hna⟩
       · exact abMoves_range c L hl sl child hc hr alpha beta hw d h0 h1 nt inCheck improving se hm nm.2
-          (by rw [hn.1.board]; exact hg) hnr.1
-    · exact abMoves_range c L hl sl child hc hr alpha beta hw d h0 h1 nt inCheck improving se hm s hg htt
+          (by rw [hn.1.board]; exact hg) (by rw [hn.1.board]; exact hfl) (by rw [hn.1.board]; exact hhash) hnr.1
+    · exact abMoves_range c L hl sl child hc hr alpha beta hw d h0 h1 nt inCheck improving se hm s hg hfl hhash htt
 
 theorem abBody_range (c : Comp σ π) (L : Limits) {Good : Board → Prop} {TTok : σ → Prop} {μ : Board → Nat}
     (hl : Laws c Good) (sl : ScoreLaws c Good TTok μ) (child : Child σ)
     (hc : ABSpec c L Good child) (hr : ABRange Good TTok child) (alpha beta : Score) (hw : WinOK alpha beta) (d : Int)
-    {ply : Int} (h0 : 0 ≤ ply) (h1 : ply < 63) (nt : NodeType) (s : St σ) (hg : Good s.board) (htt : TTok s.ps) :
+    {ply : Int} (h0 : 0 ≤ ply) (h1 : ply < 63) (nt : NodeType) (s : St σ) (hg : Good s.board)
+    (hfl : s.board.fifty < 100) (htt : TTok s.ps) :
     let o := abBody c L child alpha beta d ply nt s
     TTok o.2.ps ∧ (o.2.aborted = false → InR o.1) := by
   simp only [abBody]
@@ -345,7 +355,8 @@ theorem abBody_range (c : Comp σ π) (L : Limits) {Good : Board → Prop} {TTok
       · exact ttCut_inR (sl.tt_probe _ _ _ _ htt he) hcut
       · cases hcut
     · cases hcut
-  · refine abPrune_range c L hl sl child hc hr alpha beta hw d h0 h1 nt _ _ _ ?_ _ s hg rfl htt
+  · refine abPrune_range c L hl sl child hc hr alpha beta hw d h0 h1 nt _ _ _ ?_ _ s hg hfl
+      (hashOK_probe c (sl.tt_ok _ htt) s.board ply) rfl htt
     intro h
     simp only [h, Bool.false_eq_true, if_false]
     exact inR_eval c s.board
@@ -379,8 +390,9 @@ theorem alphaBeta_range (c : Comp σ π) (L : Limits) {Good : Board → Prop} {T
       · next hab => exact ⟨by rw [hps]; exact htt, fun hna => by rw [← hat, hab] at hna; cases hna⟩
       · split
         · exact ⟨by rw [hps]; exact htt, fun _ => inR_zero⟩
-        · exact abBody_range c L hl sl (alphaBeta c L fuel) (alphaBeta_spec c L hl fuel) ih a b hw d h0 h1 nt as.2
-            (by rw [hb]; exact hg) (by rw [hps]; exact htt)
+        · next hnd =>
+          exact abBody_range c L hl sl (alphaBeta c L fuel) (alphaBeta_spec c L hl fuel) ih a b hw d h0 h1 nt as.2
+            (by rw [hb]; exact hg) (fifty_lt_of_not_draw hnd) (by rw [hps]; exact htt)
 
 end Search
 end ChessVerif
